@@ -188,19 +188,57 @@ def argclass(case):
     return ",".join(tags)
 
 
+class _View:
+    def __init__(self, data):
+        self.data = data
+        self.shape = data.shape
+
+
+def has_layout(shape):
+    """a column-major copy differs from the row-major one only with at least two dims larger than 1"""
+    return sum(1 for n in shape if n > 1) >= 2
+
+
 class CatalogReplayer:
     variants = (0, 1)      # public call forms exercised per case
+    layout = "C"           # memory layout of operand / gradient arrays: "C" row-major, "F" column-major (same values)
 
     def __init__(self, sg, caller=call_op):
         self.sg = sg
         self.caller = caller
 
+    def lay(self, arr):
+        return np.asfortranarray(arr) if self.layout in ("F", "V") and arr.ndim >= 2 else arr      # (asfortranarray has ndmin=1)
+
+    def mk(self, arr, rg):
+        """operand tensor for `arr`.  Layout "V": the operand is the result of library operations on another leaf
+        (all dims reversed by transposes of a leaf holding arr.T), so it is a non-leaf whose array is a strided view;
+        its gradient is then read from that leaf."""
+        sg = self.sg
+        if self.layout != "V" or not has_layout(arr.shape) or arr.dtype.kind != "f":
+            return sg.Tensor(self.lay(arr), requires_grad=rg), None
+        base = sg.Tensor(np.ascontiguousarray(arr.T), requires_grad=rg)
+        x, n = base, arr.ndim
+        with repo.quiet():
+            for i in range(n // 2):
+                x = x.transpose(i, n - 1 - i)
+        return x, base
+
+    def grad_of(self, k, t):
+        base = self.bases.get(k)
+        if base is None:
+            return t.grad
+        g = base.grad
+        return None if g is None else _View(g.data.T)
+
     def operands(self, case, dtype, rg):
         sg = self.sg
+        self.bases = {}
         if isinstance(case.get("a"), dict) and case["a"].get("alias"):
             # one tensor object passed for every operand (x op x)
             arr = qarr(case["X"][0], case["shapes"][0], dtype)
-            t = sg.Tensor(arr, requires_grad=bool(any(rg)))
+            t, base = self.mk(arr, bool(any(rg)))
+            self.bases[0] = base
             return [t] * len(case["shapes"])
         T = []
         for k, (shape, vals) in enumerate(zip(case["shapes"], case["X"])):
@@ -208,11 +246,97 @@ class CatalogReplayer:
             int_operand = case.get("intops") and k in case["intops"]
             if int_operand:
                 arr = arr.astype(np.int64)
-            T.append(sg.Tensor(arr, requires_grad=bool(rg[k]) and not int_operand))
+            t, base = self.mk(arr, bool(rg[k]) and not int_operand)
+            self.bases[k] = base
+            T.append(t)
         return T
 
+    flagtable = None       # {(grad mode, (operand requires_grad...)): result requires grad} from Tape.tla (C07)
+    only_flags = False
+
+    def flags_pass(self, case):
+        """C07 on every operation of the catalogue: for every subset of operands that require grad, with gradient
+        tracking enabled and inside no_grad, the result's requires_grad flag is the one Tape.ResultRG prescribes; a
+        result that does not require grad has no backward function, refuses backward() and no operand acquires a
+        .grad; the call leaves the gradient mode as it found it."""
+        sg = self.sg
+        div = []
+        if case["pol"] != "MUST" or not case.get("oshape") and case["kind"] == "none":
+            return div
+        op, K = case["op"], len(case["shapes"])
+        dtype = np.dtype(np.float32)
+        import itertools
+        for rg in itertools.product((False, True), repeat=K):
+            for gm in (True, False):
+                T = self.operands(case, dtype, list(rg))
+                eff = tuple(bool(t.requires_grad) for t in T)
+                want = self.flagtable[(gm, eff)]
+                tm = repo.tensor_module()
+                before = tm.gradient__
+                try:
+                    with repo.quiet(), np.errstate(all="ignore"):
+                        if gm:
+                            out = self.caller(sg, op, case["a"], T, 0)
+                        else:
+                            with sg.no_grad():
+                                out = self.caller(sg, op, case["a"], T, 0)
+                except Exception:  # noqa: BLE001 - acceptance is the forward part's business
+                    return div
+                ctxt = "%s:%s" % (op, "grad-on" if gm else "no_grad")
+                if tm.gradient__ != before:
+                    div.append(("flags", ctxt + ":mode-changed", "%s left the gradient mode changed" % op))
+                    tm.gradient__ = before
+                if not isinstance(out, sg.Tensor):
+                    continue
+                if bool(out.requires_grad) != want:
+                    div.append(("flags", ctxt + ":requires_grad", "%s%s with operands requiring grad %s, gradient mode %s: result.requires_grad = %s, specification %s%s" % (
+                        op, case["a"], list(eff), "on" if gm else "off", out.requires_grad, want, " (the result IS an operand)" if any(out is t for t in T) else "")))
+                    continue
+                if want:
+                    if out.grad_fn is None and not any(out is t for t in T):
+                        div.append(("flags", ctxt + ":no-grad_fn", "result of %s requires grad but has no backward function" % op))
+                else:
+                    if out.grad_fn is not None:
+                        div.append(("flags", ctxt + ":grad_fn-on-nonreq", "result of %s does not require grad but carries a backward function" % op))
+                    refused = False
+                    try:
+                        with repo.quiet(), np.errstate(all="ignore"):
+                            out.backward(sg.Tensor(np.ones(out.shape, dtype=dtype)))
+                    except Exception:  # noqa: BLE001
+                        refused = True
+                    if not refused:
+                        div.append(("flags", ctxt + ":backward-accepted", "backward() on the result of %s (requires_grad False) was not refused" % op))
+                    with repo.quiet():
+                        acquired = out.grad is not None or any(self.grad_of(k, t) is not None for k, t in enumerate(T))
+                    if acquired:
+                        div.append(("flags", ctxt + ":grad-acquired", "a .grad appeared although the result of %s does not require grad" % op))
+        return div
+
     def run(self, case, dtypes=(np.float32, np.float64), cross_g=False):
-        """Returns list of (kind, key, message)."""
+        """Returns list of (kind, key, message).  Every case is run on row-major operands; cases with an operand (or
+        result) that has at least two dims larger than 1 are run again, in the library's default dtype, on
+        column-major copies of the same operands and upstream gradients: values, shapes and gradients must not
+        depend on the memory layout the caller's arrays happen to have."""
+        self.layout = "C"
+        if self.only_flags:
+            return self.flags_pass(case)
+        div = self.run_layout(case, dtypes, cross_g)
+        if self.flagtable is not None:
+            div += self.flags_pass(case)
+        if any(has_layout(s) for s in case["shapes"]) or has_layout(case.get("oshape") or ()):
+            try:
+                self.layout = "F"
+                for kind, key, msg in self.run_layout(case, (np.float32,), False):
+                    div.append((kind, key + ":colmajor", msg + " [column-major operand arrays]"))
+                # operands that are results of other operations (strided views of another tensor's array)
+                self.layout = "V"
+                for kind, key, msg in self.run_layout(case, (np.float32,), False):
+                    div.append((kind, key + ":view", msg + " [operands are transposed views of other tensors]"))
+            finally:
+                self.layout = "C"
+        return div
+
+    def run_layout(self, case, dtypes=(np.float32, np.float64), cross_g=False):
         div = []
         op = case["op"]
         ac = argclass(case)
@@ -241,6 +365,9 @@ class CatalogReplayer:
                     continue
                 if [t.data.tobytes() for t in T] != snaps:
                     div.append(("operand_mutated", "%s:fwd-mutates:%s" % (op, ac), "forward of %s modified an operand" % op))
+                for nm, t_, b_ in getattr(self, "aux", ()):
+                    if t_.data.tobytes() != b_:
+                        div.append(("operand_mutated", "%s:fwd-mutates-%s:%s" % (op, nm, ac), "forward of %s modified %s" % (op, nm)))
                 if not isinstance(out, self.sg.Tensor):
                     div.append(("forward_shape", "%s:type" % op, "result is %s, not a Tensor" % type(out)))
                     continue
@@ -322,7 +449,8 @@ class CatalogReplayer:
                         return
                     if tuple(out.shape) != tuple(case["oshape"]):
                         return
-                    g = sg.Tensor(qarr(ent["g"], case["oshape"], gdt))
+                    g = sg.Tensor(self.lay(qarr(ent["g"], case["oshape"], gdt)))
+                    aux = list(getattr(self, "aux", ()))
                     snaps = [t.data.tobytes() for t in T]
                     gsnap = g.data.tobytes()
                     if not out.requires_grad:
@@ -336,6 +464,9 @@ class CatalogReplayer:
                         return
                     if [t.data.tobytes() for t in T] != snaps:
                         div.append(("operand_mutated", "%s:bwd-mutates:%s" % (op, ac), "backward of %s modified an operand" % op))
+                    for nm, t_, b_ in aux:
+                        if t_.data.tobytes() != b_:
+                            div.append(("operand_mutated", "%s:bwd-mutates-%s:%s" % (op, nm, ac), "backward of %s modified %s" % (op, nm)))
                     if g.data.tobytes() != gsnap:
                         div.append(("g_mutated", "%s:g-mutated" % op, "backward of %s modified the caller's gradient" % op))
                     want = self.expected_grads(case, ent["g"])
@@ -348,10 +479,10 @@ class CatalogReplayer:
                     for k in (range(1) if alias else range(K)):
                         t = T[k]
                         if not rg[k]:
-                            if t.grad is not None:
+                            if self.grad_of(k, t) is not None:
                                 div.append(("grad_value", "%s:grad-on-nonreq:%s" % (op, ac), "operand %d of %s does not require grad but has a .grad" % (k, op)))
                             continue
-                        gr = t.grad
+                        gr = self.grad_of(k, t)
                         if gr is None:
                             div.append(("grad_value", "%s:grad-missing:%s" % (op, ac), "operand %d of %s%s requires grad but .grad is None" % (k, op, case["a"])))
                             continue
@@ -378,6 +509,27 @@ class CatalogReplayer:
                             msg = self.check_subgradient(case, ent["g"], gr.data.astype(np.float64).reshape(-1))
                             if msg:
                                 div.append(("grad_value", "%s:subgrad:%s" % (op, ac), "%s%s on %s upstream %s: %s" % (op, case["a"], case["shapes"], [str(q2f(q)) for q in ent["g"]], msg)))
+                    # a second sweep over the same recorded graph contributes the same vector-Jacobian product again
+                    # (whatever the first sweep saved or cached must still be intact)
+                    if gi == 0 and gdt == dtype and self.layout == "C":
+                        first = [None if self.grad_of(k, t) is None else self.grad_of(k, t).data.astype(np.float64).copy() for k, t in enumerate(T)]
+                        try:
+                            with repo.quiet(), np.errstate(all="ignore"):
+                                out.backward(g)
+                        except Exception as e:  # noqa: BLE001
+                            div.append(("backward_error", "%s:second-bwd-raises:%s" % (op, ac), "second backward over the graph of %s%s raised %s: %s" % (op, case["a"], type(e).__name__, str(e)[:100])))
+                            return
+                        for k in (range(1) if alias else range(K)):
+                            if not rg[k] or first[k] is None:
+                                continue
+                            g2 = self.grad_of(k, T[k])
+                            if g2 is None:
+                                continue
+                            rt = RTOL[dtype]
+                            scale = max(1.0, float(np.max(np.abs(first[k]))) if first[k].size else 1.0)
+                            if g2.data.shape != first[k].shape or not np.allclose(g2.data.astype(np.float64), 2 * first[k], rtol=4 * rt, atol=4 * rt * scale):
+                                div.append(("grad_value", "%s:second-backward:%s" % (op, ac), "%s%s on %s (%s): after a second backward(g) operand %d holds %s, twice the first result is %s" % (
+                                    op, case["a"], case["shapes"], dn, k, g2.data.tolist(), (2 * first[k]).tolist())))
 
     @staticmethod
     def check_subgradient(case, gq, grad):
